@@ -2,6 +2,7 @@
 //! and writes Gallina case files that coqc evaluates against the Coq models and specifications.
 mod astdump;
 mod c01;
+mod c05;
 mod c06;
 mod c07;
 mod c08;
@@ -70,6 +71,7 @@ fn main() {
         "c14" => meta::generate_c14(a.seed, a.n, a.thorough).write(&a.out, a.shards, a.only),
         "c15" => c15::generate(a.seed, a.n, a.thorough).write(&a.out, a.shards, a.only),
         "c01" => c01::generate(a.seed, a.n, a.thorough).write(&a.out, a.shards, a.only),
+        "c05" => c05::generate(a.seed, a.n, a.thorough).write(&a.out, a.shards, a.only),
         "c06" => c06::generate(a.seed, a.n, a.thorough).write(&a.out, a.shards, a.only),
         "c16" => c16::generate(a.seed, a.n, a.thorough).write(&a.out, a.shards, a.only),
         "c17" => c17::generate(a.seed, a.n, a.thorough).write(&a.out, a.shards, a.only),
